@@ -369,7 +369,7 @@ impl Property for C12 {
     }
     fn runs(&self, tier: Tier) -> u64 {
         match tier {
-            Tier::Quick => 150_000,
+            Tier::Quick => 350_000,
             Tier::Thorough => 5_000_000,
         }
     }
